@@ -7,6 +7,8 @@ package main
 // NewZoneParser(...).Next() and through dns.ReadRR (dns.NewRR appends a newline and would hide
 // end-of-input cases).  Nothing is expected of the outcome except safety: no panic, termination,
 // bounded allocation, an error that is a *dns.ParseError with a position, and stickiness.
+// The same for the control entries ($GENERATE with its modifiers, $ORIGIN, $TTL, $INCLUDE), and for the zoo records
+// with one token repeated, dropped, exchanged with or joined to its neighbour (family mutate:<TYPE>).
 
 import (
 	"errors"
@@ -43,12 +45,110 @@ func readRR(text string) (panicked string, err error, timedOut bool) {
 	return "", nil, true
 }
 
+// directiveTexts: the control entries of RFC 1035 s.5 / BIND, with every feature of their own little grammars: ranges
+// with and without step, ${offset,width,base} modifiers in the owner and in the RDATA template (complete, short,
+// negative offset, every base), $$ and \$, quoted and parenthesised RDATA, an origin argument, TTL units.  They get
+// the treatment of the zoo records: every prefix (the input may END anywhere: inside "${", after "$", inside the
+// range, after the directive), as it stands / followed by a line end / by the tails below.
+var directiveTexts = []string{
+	"$GENERATE 1-3 h${0,3,d}.sub 5 IN A 10.0.${1,2,x}.$",
+	"$GENERATE 0-6/2 $.${-0,1,o}x\\$y$$ 1h TXT \"v${2,4,X} $\" ${0} ${1,2}",
+	"$GENERATE 1-2 @ 300 CNAME t${1,0,d}.x.org.",
+	"$GENERATE 10-12 ${0,2} MX $ mx${0,2,d}",
+	"$GENERATE 1-2 h$ 5 A ( 10.0.0.${0,1,d}\n )",
+	"$GENERATE 65534-65535 ${1,5,d} IN 5 NS ns${-65534}",
+	"$ORIGIN sub.example.org.",
+	"$TTL 1h30m",
+	"$INCLUDE inc.zone sub.example.org. ; c",
+	"$INCLUDE inc.zone",
+}
+
+// mutate: the tokens of an entry after the owner -- TTL, class, type and every RDATA item -- written twice in a row,
+// left out, exchanged with their neighbour, or joined to it: lists with a REPEATED member (type bit maps, SVCB keys,
+// APL items, TXT strings), a member missing, members out of order.  A second, valid record follows.
+func mutate(full string) []string {
+	var toks []string
+	for rest := full; rest != ""; {
+		h, t, ok := splitUnquoted(rest)
+		toks = append(toks, h)
+		if !ok {
+			break
+		}
+		rest = t
+	}
+	join := func(t []string) string { return strings.Join(t, " ") }
+	var out []string
+	for i := 1; i < len(toks); i++ {
+		cp := func() []string { return append([]string{}, toks...) }
+		dup := append(cp()[:i+1], toks[i:]...)
+		out = append(out, join(dup))
+		out = append(out, join(append(cp()[:i+1], dup[i:]...))) // three times
+		out = append(out, join(append(cp()[:i], toks[i+1:]...)))
+		if i+1 < len(toks) {
+			sw := cp()
+			sw[i], sw[i+1] = sw[i+1], sw[i]
+			out = append(out, join(sw))
+			out = append(out, join(append(append(cp()[:i], toks[i]+toks[i+1]), toks[i+2:]...)))
+		}
+		if up, lo := strings.ToUpper(toks[i]), strings.ToLower(toks[i]); up != lo { // the same member in another spelling
+			out = append(out, join(append(append(cp()[:i+1], map[bool]string{true: lo, false: up}[toks[i] == up]), toks[i+1:]...)))
+		}
+	}
+	return out
+}
+
 func prefixes(out string) {
 	w := newWriter(out)
 	defer w.Close()
 	var sum hx.Summary
 	types := map[string]bool{}
 	n := 0
+	second := "after.example.org. 3600 IN A 192.0.2.9\n"
+	run := func(fam, text string, rc zg.RunCfg, cs map[string]interface{}, every int) zg.Observed {
+		n++
+		sum.Evaluations++
+		rc.NoMem = n%16 != 0
+		o, timedOut, _ := zg.RunBudget([]byte(text), rc, budget)
+		safety(fam, len(text), &o, timedOut, rc, false, &sum, cs)
+		pn, err, to := readRR(text)
+		switch {
+		case to:
+			hang(&sum, fam, "dns.ReadRR", cs)
+		case pn != "":
+			sum.Mis("zone/hostile:panic:"+fam, "dns.ReadRR panicked: "+pn, cs)
+		case err != nil:
+			var pe *dns.ParseError
+			if !errors.As(err, &pe) {
+				sum.Mis("zone/hostile:err-type", fmt.Sprintf("dns.ReadRR error is a %T, not a *dns.ParseError: %v", err, err), cs)
+			}
+		}
+		if n%every == 0 && !timedOut && o.Panic == "" {
+			w.Emit(map[string]interface{}{"ev": "parser", "allowed": rc.IncAllowed, "chain": false})
+			for _, e := range o.Events {
+				w.Emit(e)
+			}
+		}
+		return o
+	}
+	// 1. the control entries
+	for _, full := range directiveTexts {
+		fam := "prefix:" + strings.Fields(full)[0]
+		for cut := 0; cut <= len(full); cut++ {
+			tails := []string{"", "\n", "\n" + second, "${", "$", "}", "\\", "{0,0,d} x\n"}
+			if cut == len(full) || full[cut] == ' ' || (cut > 0 && full[cut-1] == ' ') {
+				tails = append(tails, " ", " \n", "\t;c", " (", " )\n", " \"", "\n\n")
+			}
+			for _, tail := range tails {
+				text := full[:cut] + tail
+				rc := zg.RunCfg{Origin: "example.", DefTTL: -1, IncAllowed: true, FS: fstest.MapFS{"inc.zone": {Data: []byte("x 5 A 10.0.0.1\n")}}, File: "db"}
+				cs := map[string]interface{}{"family": fam, "text": text, "record": full, "cut": cut}
+				if o := run(fam, text, rc, cs, 10); o.NRecs > 65536+1 {
+					sum.Mis("zone/hostile:gen>65536", fmt.Sprintf("%d records from one $GENERATE", o.NRecs), cs)
+				}
+			}
+		}
+	}
+	// 2. the records of the zoo: prefixes, and token-level mutations
 	for ti, t := range zoo.Texts {
 		full := strings.Replace(t, "OWNER", "example.org.", 1)
 		typ := "?"
@@ -56,6 +156,11 @@ func prefixes(out string) {
 			typ = f[3]
 		}
 		types[typ] = true
+		for _, text := range mutate(full) {
+			fam := "mutate:" + typ
+			rc := zg.RunCfg{Origin: "", DefTTL: -1, IncAllowed: false, FS: fstest.MapFS{}, File: "db"}
+			run(fam, text+"\n"+second, rc, map[string]interface{}{"family": fam, "text": text + "\n" + second, "record": full}, 10)
+		}
 		fam := "prefix:" + typ
 		for cut := 0; cut <= len(full); cut++ {
 			p := full[:cut]
@@ -65,30 +170,9 @@ func prefixes(out string) {
 			}
 			for _, tail := range tails {
 				text := p + tail
-				n++
-				sum.Evaluations++
-				rc := zg.RunCfg{Origin: "", DefTTL: -1, IncAllowed: false, FS: fstest.MapFS{}, File: "db", NoMem: n%16 != 0}
-				o, timedOut, _ := zg.RunBudget([]byte(text), rc, budget)
+				rc := zg.RunCfg{Origin: "", DefTTL: -1, IncAllowed: false, FS: fstest.MapFS{}, File: "db"}
 				cs := map[string]interface{}{"family": fam, "text": text, "record": full, "cut": cut}
-				safety(fam, len(text), &o, timedOut, rc, false, &sum, cs)
-				pn, err, to := readRR(text)
-				switch {
-				case to:
-					hang(&sum, fam, "dns.ReadRR", cs)
-				case pn != "":
-					sum.Mis("zone/hostile:panic:"+fam, "dns.ReadRR panicked: "+pn, cs)
-				case err != nil:
-					var pe *dns.ParseError
-					if !errors.As(err, &pe) {
-						sum.Mis("zone/hostile:err-type", fmt.Sprintf("dns.ReadRR error is a %T, not a *dns.ParseError: %v", err, err), cs)
-					}
-				}
-				if n%40 == 0 && !timedOut && o.Panic == "" {
-					w.Emit(map[string]interface{}{"ev": "parser", "allowed": false, "chain": false})
-					for _, e := range o.Events {
-						w.Emit(e)
-					}
-				}
+				o := run(fam, text, rc, cs, 40)
 				if (ti*131+cut)%9973 == 0 {
 					sum.Sample(map[string]interface{}{"family": fam, "text": text, "records": o.NRecs, "err": o.ErrText})
 				}
